@@ -225,6 +225,8 @@ class C18(Check):
         c["bodies"] = [self._body_spec(rng.choice(BODY_KINDS[dim]), rng) for _ in range(nb)]
         c["with_forcing"] = nb > 0 or rng.random() < 0.5
         n = rng.randint(2, 6 if tier == "quick" else 10)
+        if dim == 2 and rng.random() < (0.06 if tier == "quick" else 0.15):
+            n = rng.randint(12, 16 if tier == "quick" else 30)  # state that only matters after many steps
         ops = []
         for _ in range(n):
             if rng.random() < 0.65:
